@@ -230,3 +230,30 @@ Proof. exact genchecker_recognised. Qed.
 Example C03_checker_bridge_nonvacuous :
   checker_bridge_ok BrEx.cfg BrEx.ex_ok = true /\ checker_bridge_ok BrEx.cfg BrEx.ex_bad = true.
 Proof. exact checker_bridge_ok_inhabited. Qed.
+
+(* The member cases: the calls `fieldType(base, node.Property)` / `methodType(base, node.Method)` of the
+   regenerated PropertyNode / MethodNode methods are primitives of Ty/CheckRules.v answered by the hand
+   models field_type / method_type; that answer IS the interpretation of the called function's own body
+   as regenerated from checker/types.go (gen/GenMembers.v, Bridge/BrMembers.v: C16_model_field_type_is_source,
+   C16_model_method_type_is_source), inside the decidable fragment of those two theorems. *)
+Require X.Ty.TableRules X.Ty.MemberRules X.gen.GenMembers X.Bridge.BrMembersChecker.
+
+Theorem C03_member_field_call_is_source : forall c drf t name fuel,
+  X.Ty.TableRules.plain t = true -> X.Ty.TableRules.te_plain (cc_te c) = true ->
+  X.Ty.MemberRules.lk_fuel (X.Ty.TypesTable.field_type (cc_te c) (cfuel c) t name) = false ->
+  (X.Ty.MemberRules.field_fuel (cc_te c) (cfuel c) t <= fuel)%nat ->
+  prim_call c drf "fieldType" [VT t; VS name]
+  = X.Bridge.BrMembersChecker.gv_found
+      (X.Ty.MemberRules.gen_field_type X.gen.GenMembers.member_funcs X.gen.GenMembers.member_consts (cc_te c) fuel t name).
+Proof. exact X.Bridge.BrMembersChecker.checker_fieldType_call_is_source. Qed.
+Print Assumptions C03_member_field_call_is_source.
+
+Theorem C03_member_method_call_is_source : forall c drf t name fuel,
+  X.Ty.MemberRules.member_ty_ok t = true -> X.Ty.MemberRules.member_te_ok (cc_te c) = true ->
+  X.Ty.MemberRules.lk_fuel (X.Ty.TypesTable.method_type (cc_te c) (cfuel c) t name) = false ->
+  (X.Ty.MemberRules.method_fuel (cfuel c) <= fuel)%nat ->
+  prim_call c drf "methodType" [VT t; VS name]
+  = X.Bridge.BrMembersChecker.gv_mfound
+      (X.Ty.MemberRules.gen_method_type X.gen.GenMembers.member_funcs X.gen.GenMembers.member_consts (cc_te c) fuel t name).
+Proof. exact X.Bridge.BrMembersChecker.checker_methodType_call_is_source. Qed.
+Print Assumptions C03_member_method_call_is_source.
